@@ -1,2 +1,56 @@
-(* C07 — Array length semantics. (theorems are added by Proofs/ArrayCorrect.v) *)
-From VF Require Import Model.Writer Gen.GeneratedOk.
+(* C07 — array length semantics: fixed, expression, null-terminated and to-end-of-stream. *)
+From VF Require Import Model.Reader Model.Writer Proofs.ReaderProps Proofs.ArrayProps Gen.GeneratedOk.
+Open Scope string_scope. Open Scope list_scope. Open Scope Z_scope.
+
+(* x[n] over generic elements (structures, unions, arrays, LEB128, unpacked integers, pointers): exactly n elements, each read where the
+   previous one ended — for every element reader, so in particular for arrays of arrays (C order) and variable-size elements *)
+Theorem counted_array_is_n_sequential_reads : forall c fuel el rd n s pos ctx l p, generic_elem el = true -> 0 <= n ->
+  read_count c fuel el rd n s pos ctx = Ok (VList l, p) -> seq_n rd (Z.to_nat n) s pos ctx = Ok (l, p) /\ Z.of_nat (length l) = n.
+Proof. exact read_count_generic. Qed.
+(* the bulk path of packed integers and floats (one read of n*size bytes and one struct.unpack) is element-by-element reading:
+   the same values, the same end position and the same error *)
+Theorem bulk_unpack_is_sequential : forall c p sz, fixed_scalar p = Some sz -> forall n s pos ctx,
+  0 <= pos -> 0 <= n -> Z.of_nat sz * n <= 9223372036854775807 ->
+  packed_read_n c p n s pos = seq_n (fun s pos _ => prim_read_at (c_endian c) p s pos) (Z.to_nat n) s pos ctx.
+Proof. exact bulk_is_sequential. Qed.
+(* x[expr]: the count is max(0, expr) over the fields parsed so far, then the constants *)
+Theorem expression_count : forall c fuel el rd toks s pos ctx v, eval_len c ctx toks = Some v ->
+  read_array c fuel el rd (LExpr toks false) s pos ctx = read_count c fuel el rd (Z.max 0 v) s pos ctx.
+Proof. intros c fuel el rd toks s pos ctx v H. cbn [read_array]. now rewrite H. Qed.
+(* x[] over numbers: every kept element is non-zero, they are consecutive reads, and the first zero element is read and dropped *)
+Theorem null_terminated_stops_at_first_zero : forall isz rd f s pos ctx l p, zero_term isz rd f s pos ctx = Ok (l, p) ->
+  Forall (fun v => isz v = false) l /\
+  exists p0 z, seq_n rd (length l) s pos ctx = Ok (l, p0) /\ rd s p0 ctx = Ok (z, p) /\ isz z = true.
+Proof. exact zero_term_spec. Qed.
+Theorem null_terminated_structures : forall rd f s pos ctx l p, falsy_term rd f s pos ctx = Ok (l, p) ->
+  Forall (fun v => truthy_value v = true) l /\
+  exists p0 z, seq_n rd (length l) s pos ctx = Ok (l, p0) /\ rd s p0 ctx = Ok (z, p) /\ truthy_value z = false.
+Proof. exact falsy_term_spec. Qed.
+Theorem null_terminated_chars : forall f s pos bs p, 0 <= pos -> char_term f s pos [] = Ok (VBytes bs, p) ->
+  exists body, bs = body /\ Forall (fun b => b <> 0) body /\ sread s pos (zlen body + 1) = body ++ [0] /\ p = pos + zlen body + 1.
+Proof. intros f s pos bs p Hp H. exact (char_term_spec f s pos [] bs p Hp H). Qed.
+(* x[EOF] over generic elements: consecutive whole elements until the position reaches the end of the stream *)
+Theorem to_eof_reads_all : forall rd f s pos ctx l p, seq_eof rd f s pos ctx = Ok (l, p) ->
+  seq_n rd (length l) s pos ctx = Ok (l, p) /\ zlen s <= p /\ (l <> [] -> pos < zlen s).
+Proof. exact seq_eof_spec. Qed.
+
+Print Assumptions counted_array_is_n_sequential_reads.
+Print Assumptions bulk_unpack_is_sequential.
+Print Assumptions expression_count.
+Print Assumptions null_terminated_stops_at_first_zero.
+Print Assumptions null_terminated_structures.
+Print Assumptions null_terminated_chars.
+Print Assumptions to_eof_reads_all.
+
+(* non-vacuity *)
+Definition ex_cfg := mkCfg "<" (PInt 8 false true) 8 [] [].
+Definition u16 := TPrim (PInt 2 false true) 2.
+Example ex_bulk : packed_read_n ex_cfg (PInt 2 false true) 3 [1; 0; 2; 0; 3; 0; 9] 0 = Ok ([VInt 1; VInt 2; VInt 3], 6).
+Proof. vm_compute. reflexivity. Qed.
+Example ex_null : read_top ex_cfg (TArr u16 LNull) [1; 0; 2; 0; 0; 0; 9; 9] 0 = Ok (VList [VInt 1; VInt 2], 6).
+Proof. vm_compute. reflexivity. Qed.
+Example ex_eof : read_top ex_cfg (TArr (TPrim (PInt 3 false false) 4) (LExpr ["EOF"] true)) [1; 0; 0; 2; 0; 0] 0 = Ok (VList [VInt 1; VInt 2], 6).
+Proof. vm_compute. reflexivity. Qed.
+Example ex_nested : read_top ex_cfg (TArr (TArr (TPrim (PLeb false) 1) (LFixed 2)) (LFixed 2)) [1; 130; 1; 3; 4] 0
+  = Ok (VList [VList [VInt 1; VInt 130]; VList [VInt 3; VInt 4]], 5).
+Proof. vm_compute. reflexivity. Qed.
